@@ -66,7 +66,8 @@ def cases(rng, tier):
         out.append({"t": "flow", "essential": rng.random() < 0.5, "mset": rng.choice(list(METHOD_SETS)), "client": rng.choice(["client_1", "cl_ess", "cl_noess"]),
                     "method": m, "challenge_method": m or "plain", "verifier": v, "has_challenge": has_ch, "tv": tv,
                     # the challenge as the authorization request carries it: the transform, or an altered / padded / re-encoded one
-                    "chmut": rng.choice([None, None, None, "pad", "pad2", "trunc", "flip", "b64std", "space", "veq"])})
+                    "chmut": rng.choice([None, None, None, "pad", "pad2", "trunc", "flip", "b64std", "space", "veq"]),
+                    "replay": rng.choice([None, "right", "wrong", "none"])})
     for _ in range(40 * n):
         out.append({"t": "rp", "method": rng.choice(["S256", "S384", "S512"]), "len": rng.choice([43, 64, 128]), "mset": rng.choice(["all", "s256", "s384_512"]),
                     "essential": rng.random() < 0.5})
@@ -96,7 +97,7 @@ def _token_verifier(c):
     return v
 
 
-def _run(s, client, challenge, method, verifier):
+def _run(s, client, challenge, method, verifier, replay=None):
     az, tk = s.get_endpoint("authorization"), s.get_endpoint("token")
     args = dict(client_id=client, redirect_uri=RED, scope=["openid"], state="st", response_type="code", nonce="n")
     if challenge is not None:
@@ -128,6 +129,24 @@ def _run(s, client, challenge, method, verifier):
         else:
             r = tk.process_request(tp)
             o["token"] = "tokens" if "response_args" in r and "access_token" in r["response_args"] else "error"
+            if o["token"] == "tokens" and replay is not None:
+                # the used code is presented again (with the right, a wrong or no verifier): whatever the PKCE outcome of the replay, the OIDC
+                # token endpoint must invalidate what was minted from the code the first time
+                at = r["response_args"]["access_token"]
+                rq = dict(req)
+                rq.pop("code_verifier", None)
+                if replay == "right" and verifier is not None:
+                    rq["code_verifier"] = verifier
+                elif replay == "wrong":
+                    rq["code_verifier"] = "B" * 43
+                try:
+                    rp_ = tk.parse_request(rq)
+                    o["replay"] = "refused" if "error" in rp_ else "parsed"
+                except Exception:
+                    o["replay"] = "refused"
+                it = s.get_endpoint("introspection")
+                ir = it.process_request(it.parse_request({"token": at, "client_id": client, "client_secret": s.context.cdb[client]["client_secret"]}))
+                o["first_token_active_after_replay"] = bool(ir["response_args"].get("active"))
     except Exception as e:
         o["token"] = "exc"
     return o
@@ -145,7 +164,7 @@ def impl(c):
             ch = {"pad": ch + "=", "pad2": ch + "==", "trunc": ch[:-1], "flip": ("A" if ch[:1] != "A" else "B") + ch[1:],
                   "b64std": ch.replace("-", "+").replace("_", "/"), "space": ch + " ", "veq": ch}[cm]
         ch = ch or None            # a blank parameter is not part of a message at all
-        o = _run(s, c["client"], ch, c["method"], _token_verifier(c) or None)
+        o = _run(s, c["client"], ch, c["method"], _token_verifier(c) or None, replay=c.get("replay"))
         o["challenge"] = ch
         return o
     # relying-party add-on produces the pair
@@ -222,6 +241,8 @@ def oracle(c, obs):
             v.append({"cls": "essential-not-enforced"})
         if has_ch and (c["method"] or "plain") not in methods:
             v.append({"cls": "unsupported-method-accepted", "method": c["method"]})
+        if obs.get("first_token_active_after_replay"):
+            v.append({"cls": "replay-does-not-revoke", "replay_verifier": c.get("replay"), "replay_outcome": obs.get("replay")})
         if obs.get("token") == "tokens" and has_ch:
             ver = _token_verifier(c) or None
             rec = c["method"] or "plain"
